@@ -65,6 +65,11 @@ GRIDS = {
     "U64": {"cls": "UnitGrid", "shape": [6, 4], "periodic": [False, False]},
     "P6": {"cls": "PolarSymGrid", "radius": 2.0, "shape": 6},
     "S6": {"cls": "SphericalSymGrid", "radius": 2.0, "shape": 6},  # same bounds and shape as P6
+    # twins whose bounds differ by less than any plausible comparison tolerance
+    "C6e": {"cls": "CartesianGrid", "bounds": [[0.0, 6.0000005]], "shape": [6], "periodic": [False]},
+    "F1": {"cls": "CartesianGrid", "bounds": [[1000.0, 1001.0]], "shape": [6], "periodic": [False]},
+    "F1e": {"cls": "CartesianGrid", "bounds": [[1000.0, 1001.004]], "shape": [6], "periodic": [False]},
+    "S6e": {"cls": "SphericalSymGrid", "radius": 2.0000002, "shape": 6},
     # twins whose parameters differ only by numbers with equal Python hashes (hash(-1) == hash(-2))
     "Cm1": {"cls": "CartesianGrid", "bounds": [[-1.0, 5.0]], "shape": [6], "periodic": [False]},
     "Cm2": {"cls": "CartesianGrid", "bounds": [[-2.0, 5.0]], "shape": [6], "periodic": [False]},
@@ -100,7 +105,7 @@ def bc_spec(name, grid):
 
 def build_pool(rng, size):
     pool = []
-    nonper = ["U6", "U6b", "C6", "C6w", "U64", "P6", "S6", "Cm1", "Cm2", "C2m1", "C2m2"]
+    nonper = ["U6", "U6b", "C6", "C6w", "U64", "P6", "S6", "Cm1", "Cm2", "C2m1", "C2m2", "C6e", "F1", "F1e", "S6e"]
     local = ["value0", "derivative0", "curvature0", "mixed0", "value1", "derivative1", "mixed1", "mixed1c", "lowV_highD", "lowD_highV", "value_t", "derivative_t", "auto_neumann", "auto_dirichlet",
              "valuem1", "valuem2", "derivativem1", "derivativem2", "mixed1cm1", "mixed1cm2"]
     ops = [("laplace", {}), ("gradient", {}), ("gradient", {"method": "forward"}), ("gradient_squared", {}), ("gradient_squared", {"central": False})]
@@ -139,14 +144,14 @@ def build_pool(rng, size):
             add({"kind": kind, "text": str(rng.choice(["x**2 + y", "x**2 - y", "sin(x)*y", "sin(y)*x", "heaviside(x - y)", "heaviside(y - x)"])), "backend": str(rng.choice(["numpy", "numba"])), "single_arg": bool(rng.random() < 0.3)})
         elif kind == "rate":
             eqk = str(rng.choice(["diffusion", "cahn-hilliard", "expr1", "expr2"]))
-            add({"kind": kind, "eq": eqk, "grid": str(rng.choice(["U6", "U6b", "C6", "P6", "S6", "U6p"])), "bc": str(rng.choice(["value0", "derivative0", "value1", "auto_neumann"])),
+            add({"kind": kind, "eq": eqk, "grid": str(rng.choice(["U6", "U6b", "C6", "P6", "S6", "U6p", "C6e", "F1", "F1e", "S6e"])), "bc": str(rng.choice(["value0", "derivative0", "value1", "auto_neumann"])),
                  "bc2": str(rng.choice(["value0", "derivative0", "curvature0"])), "backend": str(rng.choice(["numpy", "numba", "interpreted"])), "shared": bool(rng.random() < 0.6), "seed": int(rng.integers(2))})
         else:
             add({"kind": "solve", "grid": str(rng.choice(["U6", "C6", "U6p"])), "bc": str(rng.choice(["value0", "derivative0", "auto_neumann"])), "solver": str(rng.choice(["euler", "adams-bashforth", "runge-kutta"])),
                  "backend": str(rng.choice(["numpy", "numba"])), "steps": int(rng.choice([3, 4]))})
     # one equation object applied to states on different grids and through different backends
     for eqk, bc, bc2 in (("diffusion", "value1", "value0"), ("cahn-hilliard", "value0", "derivative0"), ("expr2", "derivative0", "value0")):
-        for g in ("U6", "C6w", "P6", "S6"):
+        for g in ("U6", "C6w", "P6", "S6", "C6", "C6e", "F1", "F1e", "S6e"):
             for backend in ("numpy", "numba"):
                 add({"kind": "rate", "eq": eqk, "grid": g, "bc": bc, "bc2": bc2, "backend": backend, "shared": True, "seed": 0})
     for g in ["U6p"]:
